@@ -17,6 +17,11 @@ pub static CAP: AtomicUsize = AtomicUsize::new(usize::MAX);
 fn refuse(n: usize) {
     // lift the cap so that capturing the backtrace may allocate
     CAP.store(usize::MAX, Ordering::Relaxed);
+    static IN_REFUSE: std::sync::atomic::AtomicBool = std::sync::atomic::AtomicBool::new(false);
+    if IN_REFUSE.swap(true, Ordering::SeqCst) {
+        // re-entered (a backtrace is being taken already): no second backtrace
+        return;
+    }
     let bt = std::backtrace::Backtrace::force_capture().to_string();
     let mut func = "?".to_string();
     for l in bt.lines() {
